@@ -61,14 +61,10 @@ type Fact struct {
 
 // FactsAt returns the branch conditions that are decided on every path from
 // the function entry to block b (walk of the dominator chain).
-func FactsAt(b *ssa.BasicBlock) []Fact {
+func FactsAt(b *ssa.BasicBlock) []Fact { return expandFacts(factsAt(b), 0) }
+
+func factsAt(b *ssa.BasicBlock) []Fact {
 	var out []Fact
-	for d := b; d != nil; d = d.Idom() {
-		for id := d.Idom(); id != nil; id = id.Idom() {
-			_ = id
-			break
-		}
-	}
 	// every dominator block ending in If whose one edge dominates b
 	for d := b.Idom(); d != nil; d = d.Idom() {
 		if len(d.Instrs) == 0 {
@@ -241,14 +237,7 @@ func swap(op token.Token) token.Token {
 // It understands !x, x OP y, bytes.Compare(a,b) OP 0 (either operand order),
 // bytes.Equal(a,b). ok=false if the condition is not a comparison.
 func CanonCmp(cond ssa.Value, pol bool) (Cmp, bool) {
-	for {
-		if u, ok := cond.(*ssa.UnOp); ok && u.Op == token.NOT {
-			cond = u.X
-			pol = !pol
-			continue
-		}
-		break
-	}
+	cond, pol = normBool(cond, pol)
 	switch c := cond.(type) {
 	case *ssa.BinOp:
 		op := c.Op
@@ -316,8 +305,10 @@ func SuccOnFalse(iff *ssa.If) *ssa.BasicBlock { return iff.Block().Succs[1] }
 
 // EdgeFacts returns the facts that hold when control flows over the CFG
 // edge from→to: the facts at from plus the branch taken.
-func EdgeFacts(from, to *ssa.BasicBlock) []Fact {
-	out := FactsAt(from)
+func EdgeFacts(from, to *ssa.BasicBlock) []Fact { return expandFacts(edgeFacts(from, to), 0) }
+
+func edgeFacts(from, to *ssa.BasicBlock) []Fact {
+	out := factsAt(from)
 	if len(from.Instrs) > 0 {
 		if iff, ok := from.Instrs[len(from.Instrs)-1].(*ssa.If); ok && from.Succs[0] != from.Succs[1] {
 			if from.Succs[0] == to {
@@ -518,4 +509,87 @@ func invariantIn(v ssa.Value, at *ssa.BasicBlock) bool {
 		return b != at && b.Dominates(at)
 	}
 	return false
+}
+
+// boolConst returns the value of a boolean constant.
+func boolConst(v ssa.Value) (val, ok bool) {
+	k, isC := v.(*ssa.Const)
+	if !isC || k.Value == nil {
+		return false, false
+	}
+	if b, isB := k.Type().Underlying().(*types.Basic); !isB || b.Info()&types.IsBoolean == 0 {
+		return false, false
+	}
+	return k.Value.ExactString() == "true", true
+}
+
+// normBool strips the wrappers go/ssa puts around conditions that were evaluated as values:
+// !x, true == x, x == true, x != false ... (tagless switch cases are lowered to `true == cond`).
+func normBool(cond ssa.Value, pol bool) (ssa.Value, bool) {
+	for i := 0; i < 8; i++ {
+		switch c := cond.(type) {
+		case *ssa.UnOp:
+			if c.Op == token.NOT {
+				cond, pol = c.X, !pol
+				continue
+			}
+		case *ssa.BinOp:
+			if c.Op == token.EQL || c.Op == token.NEQ {
+				if k, ok := boolConst(c.X); ok {
+					cond = c.Y
+					if k != (c.Op == token.EQL) {
+						pol = !pol
+					}
+					continue
+				}
+				if k, ok := boolConst(c.Y); ok {
+					cond = c.X
+					if k != (c.Op == token.EQL) {
+						pol = !pol
+					}
+					continue
+				}
+			}
+		}
+		break
+	}
+	return cond, pol
+}
+
+// expandFacts normalises facts and decomposes facts about short-circuit expressions that were
+// evaluated as values (a boolean phi whose other inputs are the constants the short-circuit yields):
+// if only one input of the phi can have the known value, control came over that edge, so the branch
+// conditions of that edge hold and the input itself has the value.
+func expandFacts(in []Fact, depth int) []Fact {
+	var out []Fact
+	for _, f := range in {
+		c, pol := normBool(f.Cond, f.Pol)
+		out = append(out, Fact{c, pol, f.If})
+		ph, ok := c.(*ssa.Phi)
+		if !ok || depth > 4 {
+			continue
+		}
+		if b, isB := ph.Type().Underlying().(*types.Basic); !isB || b.Info()&types.IsBoolean == 0 {
+			continue
+		}
+		feasible := -1
+		n := 0
+		for i, e := range ph.Edges {
+			if k, isC := boolConst(e); isC && k != pol {
+				continue
+			}
+			feasible = i
+			n++
+		}
+		if n != 1 {
+			continue
+		}
+		pred := ph.Block().Preds[feasible]
+		sub := edgeFacts(pred, ph.Block())
+		if _, isC := boolConst(ph.Edges[feasible]); !isC {
+			sub = append(sub, Fact{ph.Edges[feasible], pol, f.If})
+		}
+		out = append(out, expandFacts(sub, depth+1)...)
+	}
+	return out
 }
